@@ -45,7 +45,15 @@ PKG = os.path.join(os.environ.get("LVC_REPO", "/repo"), "src", "lerax")      # L
 
 
 def _is_set_expr(e):
-    return isinstance(e, (ast.Set, ast.SetComp)) or (isinstance(e, ast.Call) and isinstance(e.func, ast.Name) and e.func.id in ("set", "frozenset"))
+    if isinstance(e, (ast.Set, ast.SetComp)) or (isinstance(e, ast.Call) and isinstance(e.func, ast.Name) and e.func.id in ("set", "frozenset")):
+        return True
+    # set algebra: a & b, a | b, a - b, a ^ b where an operand is a set or a dict view (.keys() / .items()); s.intersection(...), s.union(...), ...
+    view = lambda x: isinstance(x, ast.Call) and isinstance(x.func, ast.Attribute) and x.func.attr in ("keys", "items") and not x.args
+    if isinstance(e, ast.BinOp) and isinstance(e.op, (ast.BitAnd, ast.BitOr, ast.Sub, ast.BitXor)):
+        return any(view(x) or _is_set_expr(x) for x in (e.left, e.right))
+    if isinstance(e, ast.Call) and isinstance(e.func, ast.Attribute) and e.func.attr in ("intersection", "union", "difference", "symmetric_difference"):
+        return view(e.func.value) or _is_set_expr(e.func.value)
+    return False
 
 
 def _dotted(node):
@@ -222,7 +230,7 @@ def python_state_offenders():
 
 def native_process_replay(model):
     """R1: three fresh interpreters with different string-hash salts (PYTHONHASHSEED=1 / 2 / 3 - what separately launched python processes get by default) run reset, one iteration and
-    a short learn of PPO, DQN and SAC from the same keys and print a digest of every array in the result; the digests must agree."""
+    a short learn of PPO (array and Dict observations), DQN and SAC from the same keys and print a digest of every array in the result; the digests must agree."""
     import subprocess
     import sys
     prog = r"""
@@ -242,7 +250,14 @@ def digest(t):
     return h.hexdigest()[:16]
 out = {}
 cp, pd = CartPole(), Pendulum()
+from collections import OrderedDict
+from lerax.space import Box, Dict
+from lerax.wrapper import TransformObservation
+names = ("cart_position", "cart_velocity", "pole_angle", "pole_angular_velocity")
+lo, hi = cp.observation_space.low, cp.observation_space.high
+dcp = TransformObservation(cp, lambda o: OrderedDict((n, o[i:i + 1]) for i, n in enumerate(names)), Dict(OrderedDict((n, Box(lo[i:i + 1], hi[i:i + 1])) for i, n in enumerate(names))))
 for name, algo, env, pol in (
+    ("PPO/dict-observation", PPO(num_envs=1, num_steps=4, num_batches=1, num_epochs=1), dcp, MLPActorCriticPolicy(dcp, key=jr.key(0))),
     ("PPO", PPO(num_envs=1, num_steps=4, num_batches=1, num_epochs=1), cp, MLPActorCriticPolicy(cp, key=jr.key(0))),
     ("DQN", DQN(num_envs=1, buffer_size=16, learning_starts=2, batch_size=2, num_steps=2), cp, MLPQPolicy(cp, width_size=4, depth=1, key=jr.key(0))),
     ("SAC", SAC(num_envs=1, buffer_size=16, learning_starts=2, batch_size=2, num_steps=2, q_width_size=4, q_depth=1), pd, MLPSACPolicy(pd, feature_size=4, width_size=4, depth=1, key=jr.key(0)))):
@@ -325,7 +340,7 @@ def unit_frame_ast(S):
                detail=(hard + soft)[:10], replay=lambda m: (nat if natr else dict(reproduced=bool(hard), route="static (AST)", observed=hard[:10])))
     if S.tier == "thorough":
         r = native_process_replay(None)
-        S.bounded_check("process/state-digests-agree-across-hash-salts", not r.get("reproduced") and not r.get("errors") and "digests" in r, bound="PPO, DQN, SAC: reset + one iteration + learn(total_timesteps=8), three fresh interpreters with PYTHONHASHSEED=1 / 2 / 3",
+        S.bounded_check("process/state-digests-agree-across-hash-salts", not r.get("reproduced") and not r.get("errors") and "digests" in r, bound="PPO (array and Dict observation spaces), DQN, SAC: reset + one iteration + learn(total_timesteps=8), three fresh interpreters with PYTHONHASHSEED=1 / 2 / 3",
                         function=fn, what="the state after reset and one iteration is bit-identical in two interpreter processes with different string-hash salts", detail=r, replay=lambda m: r)
     l = AbstractAlgorithm.learn
     S.fact("learn/no-buffer-donation", getattr(l, "donate_first", None) is False and getattr(l, "donate_rest", None) is False, function="lerax.algorithm.base_algorithm:AbstractAlgorithm.learn",
